@@ -133,6 +133,7 @@ type Exec struct {
 	typeTags map[string]int
 	curFrame *Frame
 	usesSz bool
+	replayStrTerms []string
 	inRecover bool
 	strPrefixOf map[string]Term
 	modelExtra []string
@@ -301,7 +302,8 @@ func (x *Exec) typeFact(v Term, ty types.Type, alloc Term) Term {
 			return rangeFact(v, ty)
 		}
 		if u.Info()&types.IsString != 0 {
-			return And(mk(SBool, "(>= (str_len %s) 0)", v), mk(SBool, "(<= (str_len %s) 281474976710656)", v), Not(Eq(v, Term{"bytes_nil", SStr})))
+			return And(mk(SBool, "(>= (str_len %s) 0)", v), mk(SBool, "(<= (str_len %s) 281474976710656)", v), Not(Eq(v, Term{"bytes_nil", SStr})),
+				Implies(mk(SBool, "(= (str_len %s) 0)", v), Eq(v, Term{"str_empty", SStr})))
 		}
 	case *types.Pointer, *types.Map, *types.Chan:
 		return And(mk(SBool, "(<= 0 %s)", v), mk(SBool, "(< %s %s)", v, alloc))
@@ -309,7 +311,8 @@ func (x *Exec) typeFact(v Term, ty types.Type, alloc Term) Term {
 		return mk(SBool, "(<= 0 %s)", v)
 	case *types.Slice:
 		if isByteSlice(ty) {
-			return And(mk(SBool, "(>= (str_len %s) 0)", v), mk(SBool, "(<= (str_len %s) 281474976710656)", v))
+			return And(mk(SBool, "(>= (str_len %s) 0)", v), mk(SBool, "(<= (str_len %s) 281474976710656)", v),
+				Implies(mk(SBool, "(= (str_len %s) 0)", v), Or(Eq(v, Term{"str_empty", SStr}), Eq(v, Term{"bytes_nil", SStr}))))
 		}
 		return And(mk(SBool, "(>= %s 0)", SlLen(v)), mk(SBool, "(<= %s 281474976710656)", SlLen(v)))
 	case *types.Interface:
